@@ -433,8 +433,9 @@ func runCase(c Case, ctx *hx.Ctx) *hx.Failure {
 			return hx.Failf("C14/reply-after-cancel", "the context was cancelled before any deciding reply, yet Exec returned the reply of upstream %d", gotFrom)
 		}
 	}
-	// stragglers: let everything finish; buffers must have stayed intact while each upstream ran
-	cancel()
+	// stragglers: let everything finish; buffers must have stayed intact while each upstream ran. The caller's context is
+	// left alone until the helper goroutines have been looked at: they must end by themselves, not because the caller's
+	// context happens to be cancelled afterwards.
 	for _, x := range qs {
 		if x.up.outcome != "never" {
 			select {
@@ -490,6 +491,7 @@ func runCase(c Case, ctx *hx.Ctx) *hx.Failure {
 			return hx.Failf("C14/helper-goroutine-leak", "%d helper goroutine(s) of forward are still blocked 3 s after their upstream returned:\n%s", len(left), left[0].Stack)
 		}
 	}
+	cancel()
 	diff := false
 	for _, x := range order {
 		if x.up.outcome != order[0].up.outcome {
